@@ -637,91 +637,3 @@ Section ThawedRun.
   Qed.
 End ThawedRun.
 
-(* ------------------------------------------------------------------ *)
-(** * mutate_attr(obj, a, v, inplace=False) on a flat instance: a fresh copy holding v *)
-
-Section CopyStore.
-  Variable ct : ctable.
-  Variable rec : call -> M val.
-
-  Lemma mutate_attr_copy_flat l a v s c d k sp r s' :
-    nth_error (heap s) l = Some (OInst c d) -> lookup_cls ct c = Some k -> lookup_attr k a = Some sp ->
-    c_dnc k = false -> no_inval k -> flat_fields (heap s) d -> NoDup (map fst d) ->
-    assoc A_INITIALIZING d = None -> a <> A_INITIALIZING ->
-    vscalar v = true -> ty_depth (a_ty sp) < FUEL ->
-    mutate_attr ct rec l a v false true false false s = (Ok r, s') ->
-    conforms ct (a_ty sp) (abs0 v) = true /\
-    exists l' d',
-      r = VRef l' /\ length (heap s) <= l' /\
-      (forall i, i < length (heap s) -> nth_error (heap s') i = nth_error (heap s) i) /\
-      nth_error (heap s') l' = Some (OInst c (stored (c_frozen k) a v d')) /\
-      assoc A_INITIALIZING (stored (c_frozen k) a v d') = None /\
-      fail_at s' = fail_at s /\
-      forall n, abs (S (S n)) (heap s') (VRef l') =
-                AInst c (fset a (abs0 v) (map (fun p => (fst p, abs (S n) (heap s) (snd p))) (sorted_fields d))).
-  Proof.
-    intros Hl Hc Ha Hdnc Hni Hflat Hnd Hinit Ha0 Hv Hty H.
-    unfold mutate_attr in H.
-    assert (is_sentinel v = false) as Hs by (destruct v; cbn [vscalar] in Hv; try discriminate; reflexivity).
-    rewrite Hs in H.
-    rewrite (bind_ok _ _ _ _ _ (read_inst_at l s c d Hl)) in H. cbn [fst snd] in H.
-    rewrite (bind_ok _ _ _ _ _ (cls_of_at ct c s k Hc)) in H.
-    rewrite andb_false_r in H. cbn [andb] in H. rewrite bind_ret in H.
-    rewrite Ha in H. rewrite bind_assoc in H.
-    rewrite (bind_ok (check_typeM ct v (a_ty sp)) _ s (check_type FUEL ct (heap s) v (a_ty sp)) s eq_refl) in H.
-    rewrite check_type_nonref in H by (auto using vscalar_nonref).
-    destruct (conforms ct (a_ty sp) (abs0 v)) eqn:Hconf; [|discriminate H].
-    split; [reflexivity|]. rewrite bind_ret in H.
-    rewrite Hdnc in H. cbn [orb negb andb] in H.
-    (* the deep copy *)
-    apply bind_inv in H. destruct H as [l' [s2 [Hcopy H]]].
-    apply bind_inv in Hcopy. destruct Hcopy as [r0 [s2' [Hdc Hloc]]].
-    destruct (deepcopy_flat_abs ct l s c d k r0 s2' 0 Hl Hc Hdnc Hflat Hdc)
-      as [l0 [d' [-> [Hfresh [Hcell' [Hkeys [Hflat' [_ [Hfail Hsame]]]]]]]]].
-    cbn [loc_of] in Hloc. inversion Hloc; subst l0 s2'. clear Hloc.
-    assert (Hso : same_object (assoc a d) v = false).
-    { unfold same_object. destruct (assoc a d) as [[]|]; auto. destruct v; cbn [vscalar] in Hv; try discriminate; reflexivity. }
-    rewrite Hso in H. rewrite bind_ret in H.
-    assert (Hinit' : assoc A_INITIALIZING d' = None).
-    { pose proof (proj1 (assoc_none_notin A_INITIALIZING d) Hinit) as Hn.
-      apply assoc_none_notin. intro Hin. apply Hn.
-      exact (eq_ind _ (fun l0 => In A_INITIALIZING l0) Hin _ Hkeys). }
-    apply bind_inv in H. destruct H as [u [s3 [Hth Hret]]]. inversion Hret; subst r s'. clear Hret.
-    rewrite (thawed_store_run ct rec l' a v s2 c d' k Hcell' Hc Hni Hinit') in Hth.
-    inversion Hth; subst s3. clear Hth.
-    assert (Hlen' : l' < length (heap s2)) by (apply nth_error_Some; congruence).
-    assert (Hnd' : NoDup (map fst d')) by (exact (eq_ind _ (fun l0 => NoDup l0) Hnd _ (eq_sym Hkeys))).
-    exists l', d'. split; [reflexivity|]. split; [exact Hfresh|]. split.
-    { intros i Hi. rewrite heap_upd, set_nth_other by lia. now apply Hsame. }
-    split; [now apply upd_at|]. split.
-    { rewrite stored_lookup by auto. destruct (a =? A_INITIALIZING) eqn:E; auto.
-      apply Nat.eqb_eq in E. congruence. }
-    split; [exact Hfail|].
-    intro n.
-    (* the copy made by deepcopy is abstractly the receiver, at every depth *)
-    assert (Hcopy_abs : map (fun p => (fst p, abs (S n) (heap s2) (snd p))) (sorted_fields d') =
-                        map (fun p => (fst p, abs (S n) (heap s) (snd p))) (sorted_fields d)).
-    { destruct (deepcopy_flat_abs ct l s c d k (VRef l') s2 n Hl Hc Hdnc Hflat Hdc)
-        as [l1 [d1 [E1 [_ [Hcell1 [_ [_ [Habs _]]]]]]]].
-      inversion E1; subst l1. rewrite Hcell' in Hcell1. inversion Hcell1; subst d1.
-      rewrite (abs_inst _ l' c d' (S n) Hcell'), (abs_inst _ l c d (S n) Hl) in Habs. now inversion Habs. }
-    rewrite (abs_inst _ l' c _ (S n) (upd_at s2 l' _ Hlen')). f_equal.
-    set (dfin := stored (c_frozen k) a v d').
-    transitivity (map (fun p => (fst p, abs (S n) (heap s2) (snd p))) (sorted_fields dfin)).
-    - apply map_ext_in. intros [b0 w] Hb. cbn [fst snd]. f_equal.
-      unfold sorted_fields in Hb. apply In_sort_by in Hb. apply stored_in in Hb.
-      destruct Hb as [E|Hb]; [inversion E; subst; now rewrite !abs_nonref_eq by (auto using vscalar_nonref)|].
-      destruct (Hflat' (b0, w) Hb) as [Hw|[lx [o [Ew [Ho Hso']]]]]; cbn [snd] in *.
-      + now rewrite !abs_nonref_eq.
-      + subst w. assert (lx <> l') by (intro; subst lx; rewrite Hcell' in Ho; inversion Ho; subst o; discriminate).
-        eapply abs_scalar_obj; eauto. rewrite heap_upd, set_nth_other; auto.
-    - rewrite <- Hcopy_abs.
-      pose proof (stored_nodup (c_frozen k) a v d' Hnd') as Hndf.
-      destruct (sorted_fields_props d' Hnd') as [S1 A1]. destruct (sorted_fields_props dfin Hndf) as [S2 A2].
-      apply ssorted_ext.
-      + now apply ssorted_map_fields.
-      + apply ssorted_fset. now apply ssorted_map_fields.
-      + intro k0. rewrite assoc_fset, !assoc_map_fields, A2, A1. unfold dfin. rewrite stored_lookup by auto.
-        destruct (a =? k0); [cbn [option_map]; now rewrite abs_nonref_eq by (auto using vscalar_nonref)|reflexivity].
-  Qed.
-End CopyStore.
